@@ -50,6 +50,18 @@ VARIANT_SIG = ["(self, x: int) -> object", "(self, x: object) -> object", "(self
 INIT_SIG = ["(self) -> None", "(self, x: int = 0) -> None"]
 
 
+# results differ from what the operator does WITHOUT the method (identity ==, truthy, ...) and, where possible, by provider
+DUNDERS = {
+    "__eq__": ("(self, other: object) -> bool", lambda i: "return True"),
+    "__ne__": ("(self, other: object) -> bool", lambda i: "return False"),
+    "__hash__": ("(self) -> int", lambda i: f"return {100 + i}"),
+    "__bool__": ("(self) -> bool", lambda i: "return False"),
+    "__len__": ("(self) -> int", lambda i: f"return {0 if i % 2 else i + 2}"),
+    "__contains__": ("(self, x: object) -> bool", lambda i: f"return {i % 2 == 0}"),
+    "__getitem__": ("(self, j: int) -> int", lambda i: f"return {1000 * i} + j"),
+}
+
+
 def render_hierarchy(k: int, h: list[dict]) -> tuple[list[str], list[tuple[int, int]]]:
     """Source lines of hierarchy k and, per class, its (first, last) line offsets within them."""
     lines: list[str] = []
@@ -66,6 +78,9 @@ def render_hierarchy(k: int, h: list[dict]) -> tuple[list[str], list[tuple[int, 
             if n == "__init__":
                 lines.append(f"    def __init__{INIT_SIG[v]}:")
                 lines.append("        pass")
+            elif n in DUNDERS:
+                lines.append(f"    def {n}{DUNDERS[n][0]}:")
+                lines.append("        " + DUNDERS[n][1](i))
             else:
                 lines.append(f"    def {n}{VARIANT_SIG[v]}:")
                 lines.append(f"        return {1000 * i + 10 * int(n[1:]) + v}")
@@ -243,6 +258,24 @@ def enum_trait_glue() -> list[list[dict]]:
     return out
 
 
+def enum_dunder() -> list[list[dict]]:
+    """Base C, trait T, D(C, T), E(D): each of the seven dunder methods provided by any subset of them (16 x 7 shapes).
+    Decides where `a == b`, `bool(a)`, `len(a)`, `x in a`, `a[i]` may be dispatched statically (ClassIR.is_method_final)."""
+    out = []
+    for dn in DUNDERS:
+        for mask in range(16):
+            def ms(bit: int, extra: dict | None = None) -> dict:
+                d = dict(extra or {})
+                if mask >> bit & 1:
+                    d[dn] = 0
+                return d
+            out.append([{"trait": False, "base": None, "traits": [], "methods": ms(0, {"m0": 0})},
+                        {"trait": True, "base": None, "traits": [], "methods": ms(1, {"m1": 0})},
+                        {"trait": False, "base": 0, "traits": [1], "methods": ms(2)},
+                        {"trait": False, "base": 2, "traits": [], "methods": ms(3)}])
+    return out
+
+
 def random_hierarchy(rng: vlib.Rng) -> list[dict]:
     n = rng.randint(3, 6)
     h: list[dict] = []
@@ -260,6 +293,9 @@ def random_hierarchy(rng: vlib.Rng) -> list[dict]:
         for m in ("m0", "m1", "m2"):
             if rng.random() < 0.5:
                 meths[m] = rng.choice([0, 0, 1, 1, 2])
+        for m in DUNDERS:
+            if rng.random() < 0.12:
+                meths[m] = 0
         items = list(meths.items())
         rng.shuffle(items)
         h.append({"trait": tr, "base": base, "traits": ts, "methods": dict(items)})
@@ -276,6 +312,10 @@ def vtable_stage(ctx: vlib.Ctx, exe: str | None, tmp: str) -> list[tuple[int, li
     if ctx.quick:
         small = small[::8]
     cands += small
+    du = enum_dunder()
+    ctx.cov["vt_dunder_family"] = len(du)
+    # quick: the shapes in which only the trait / only a subclass provides the method, for every dunder, + every 3rd other
+    cands += [h for j, h in enumerate(du) if not ctx.quick or (j % 16) in (2, 4, 8, 6, 10) or j % 3 == 0]
     tg = enum_trait_glue()
     ctx.cov["vt_trait_glue_family"] = len(tg)
     cands += tg[::4] if ctx.quick else tg
@@ -396,7 +436,9 @@ def vtable_stage(ctx: vlib.Ctx, exe: str | None, tmp: str) -> list[tuple[int, li
         pt = predicted_table(h, mro)
         # prepare.py / function.py vs CPython + the glue rule
         for a, b in zip(rt, pt):
-            a2 = dict(a, methods=[n for n, _ in a["methods"]], glue=sorted(a["glue"]))
+            # mypyc synthesises __ne__ for a class that defines __eq__ only (irbuild/classdef.py gen_glue_ne_method)
+            synth = [n for n, _ in a["methods"] if n == "__ne__" and "__ne__" not in dict(b["methods"]) and "__eq__" in dict(b["methods"])]
+            a2 = dict(a, methods=[n for n, _ in a["methods"] if n not in synth], glue=sorted(a["glue"]))
             b2 = dict(b, methods=[n for n, _ in b["methods"]], glue=sorted(b["glue"]))
             if a2 != b2:
                 ctx.broke("C", "class table (mro/base/methods/glue keys) vs CPython C3 + glue rule",
@@ -443,6 +485,42 @@ def vtable_stage(ctx: vlib.Ctx, exe: str | None, tmp: str) -> list[tuple[int, li
                 ctx.broke("C", "ClassIR.vtable/vtable_entries/trait_vtables vs Coq model",
                           "\n".join(render_hierarchy(k, hs[k][0])[0]) + f"\nreal : {want}\nmodel: {got}",
                           {"hierarchy": hs[k][0]})
+    # ClassIR.subclasses() / has_method / is_method_final vs the model (Final.v), every class x every method name of its hierarchy
+    flines, fmeta = [], []
+    for (k, real, names) in meta:
+        cid, mid = names["cid"], names["mid"]
+        h = hs[k][0]
+        by = {c["name"]: c for c in by_h.get(k, [])}
+        qs = []
+        for c in real:
+            rc = by.get(f"H{k}_C{c['name']}")
+            if rc is None:
+                continue
+            want_subs = sorted(f"H{k}_C{d['name']}" for d in real if c["name"] in d["mro"] and d["name"] != c["name"])
+            if rc.get("subclasses") != want_subs:
+                ctx.broke("C", "ClassIR.subclasses() vs {d | c in d.mro}", f"hierarchy {k} class {c['name']}: real {rc.get('subclasses')} model {want_subs}")
+            for n, fin in rc.get("final", {}).items():
+                if n in mid:
+                    qs.append((c["name"], n, fin))
+        if qs:
+            toks, _ = encode_table(real_table(real))
+            flines.append("vf " + toks + f" {len(qs)} " + " ".join(f"{cid[c]} {mid[n]}" for c, n, _ in qs))
+            fmeta.append((k, qs))
+    fout = run_driver(exe, flines) if flines else []
+    nfin = nfin_false = fbad = 0
+    for (k, qs), o in zip(fmeta, fout):
+        for (c, n, fin), a in zip(qs, o.split()):
+            nfin += 1
+            nfin_false += int(not fin)
+            if a != ("1" if fin else "0"):
+                fbad += 1
+                if fbad <= 3:
+                    ctx.broke("C", "ClassIR.is_method_final vs Coq model", "\n".join(render_hierarchy(k, hs[k][0])[0])
+                              + f"\nclass C{c} method {n}: real {fin} model {a}")
+    ctx.add("evaluations", nfin)
+    ctx.cov["vt_is_method_final_queries"] = nfin
+    ctx.cov["vt_is_method_final_false"] = nfin_false
+    ctx.cov["vt_is_method_final_mismatches"] = fbad
     ctx.add("evaluations", len(lines))
     ctx.add("traces_validated_against_impl", len(lines))
     ctx.cov["vt_hierarchies_compared"] = len(lines)
@@ -484,6 +562,12 @@ def vtable_stage(ctx: vlib.Ctx, exe: str | None, tmp: str) -> list[tuple[int, li
                 ctx.broke("C", "model: slot through ancestor layout != mro lookup (theorem instance fails?)", f"hierarchy {k} {c} {p} {n}: {a}")
             want = look[c].get(n)
             got = rc[int(mrol.split(".")[0])] if "." in mrol else None
+            if n == "__ne__" and want is None and got is not None and "__ne__" not in hs[k][0][got]["methods"]:
+                continue      # the synthesised __ne__ (CPython derives != from __eq__ instead)
+            if n == "__hash__" and want is None and got is not None:
+                m = hs[k][1][c]
+                if any("__eq__" in hs[k][0][j]["methods"] and "__hash__" not in hs[k][0][j]["methods"] for j in m[:m.index(got)]):
+                    continue  # CPython sets __hash__ = None in a class that defines __eq__ without __hash__
             if want != got:
                 ctx.broke("C", "model mro_lookup vs CPython attribute lookup", f"hierarchy {k} class {c} method {n}: CPython {want} model {got}")
     ctx.add("evaluations", nq)
@@ -1092,6 +1176,19 @@ def diff_hierarchies(ctx: vlib.Ctx, exe: str | None, n: int) -> list[tuple[int, 
         return []
     rng = vlib.Rng(ctx.seed, "c05diffhier")
     out: list[tuple[int, list[dict]]] = []
+    # fixed operator shapes: dunder provided only by the trait / only by the subclass / by base and subclass
+    du = enum_dunder()
+    names = list(DUNDERS)
+    for dn in ("__eq__", "__ne__", "__bool__", "__len__", "__contains__", "__getitem__", "__hash__"):
+        for mask in ((2, 4) if ctx.quick else (2, 4, 5, 6, 8, 10)):
+            h = du[names.index(dn) * 16 + mask]
+            r = py_mro(h)
+            if r is None:
+                continue
+            o = run_driver(exe, ["vt " + encode_table(predicted_table(h, r[0]))[0]])[0]
+            if not o.endswith("none"):
+                out.append((9500 + len(out), h))
+    n += len(out)
     tries = 0
     while len(out) < n and tries < 40 * n:
         tries += 1
@@ -1132,6 +1229,7 @@ def run(ctx: vlib.Ctx) -> None:
     ctx.prove("C05/PropertiesC.v", ["C05", "C12"])
     ctx.prove("C05/PropertiesU.v", ["C05"])
     ctx.prove("C05/PropertiesX.v", ["C05"])
+    ctx.prove("C05/PropertiesF.v", ["C05"])
     exe = vlib.build_extracted("c05_" + ctx.tier, "C05/Extract.v", "tools/ocaml/c05_driver.ml")
     if exe is None:
         ctx.broke("C", "extraction", "extracted model does not build")
